@@ -53,3 +53,9 @@
 ; kind selected by Marshal for a label (stack.go stackByWord; anything else is BASIC)
 (define-fun kindOfLabel ((u String)) (_ BitVec 8)
   (ite (= u "LIST") #x04 (ite (= u "AND") #x01 (ite (= u "NOT") #x03 (ite (= u "OR") #x02 #x06)))))
+; a nested []any entry that Marshal turns into a stack: non-empty, first entry a known kind label
+(define-fun labelledStack ((Mem_Val (Array Int (Array Int Val))) (v Val)) Bool
+  (and ((_ is v_anys) v) (>= (s-len (anys_of v)) 1)
+       (let ((f (select (select Mem_Val (s-arr (anys_of v))) (s-off (anys_of v)))))
+         (and ((_ is v_str) f)
+              (let ((u (toUpper (str_of f)))) (or (= u "LIST") (= u "AND") (= u "OR") (= u "NOT") (= u "BASIC")))))))
